@@ -314,15 +314,52 @@ def check(repo: Repo, run: Run) -> None:
     loads = T("call", (T("global", ("plistlib.loads",)), (data_t,), ()))
 
     def branch_tag(pc) -> Optional[str]:
-        """The tag constant whose equality is the (only) true condition of this path."""
+        """The tag constant this path is taken for: the one tested equal, or the only one left of a membership test after
+        the tags tested unequal on the way (`if tag not in PLIST_TAGS: continue ... elif ... else:`)."""
         hit = None
-        for c, pol in pc:
+        members, excluded = None, set()
+        flat = list(guards._atoms(pc))
+        # a disjunction left by an early `continue` (`not (A and B)`): the alternatives contradicted by the equalities tested
+        # unequal elsewhere on the path drop out; if one is left it holds
+        unequal = set()
+        for c, pol in flat:
             atom, apol = render.norm_bool(c)
             eff = pol if apol else not pol
-            if atom.op == "cmp" and atom.a[0] == "==" and tag_t in (atom.a[1], atom.a[2]) and eff:
-                other = atom.a[2] if atom.a[1] == tag_t else atom.a[1]
+            if atom.op == "cmp" and atom.a[0] in ("==", "!=") and tag_t in (atom.a[1], atom.a[2]) and (atom.a[0] == "==") != eff:
+                unequal.add(atom.a[2] if atom.a[1] == tag_t else atom.a[1])
+        for c, pol in list(flat):
+            if c.op == "bool" and ((c.a[0] == "and" and not pol) or (c.a[0] == "or" and pol)):
+                alts = [(x, pol) for x in c.a[1]]         # at least one of these (part, polarity) holds
+                live = []
+                for x, xp in alts:
+                    atom, apol = render.norm_bool(x)
+                    eff = xp if apol else not xp
+                    if atom.op == "cmp" and atom.a[0] in ("==", "!=") and tag_t in (atom.a[1], atom.a[2]) and (atom.a[0] == "==") == eff \
+                            and (atom.a[2] if atom.a[1] == tag_t else atom.a[1]) in unequal:
+                        continue
+                    live.append((x, xp))
+                if len(live) == 1:
+                    flat.extend(guards._atoms((live[0],)))
+        for c, pol in flat:
+            atom, apol = render.norm_bool(c)
+            eff = pol if apol else not pol
+            if atom.op != "cmp" or tag_t not in (atom.a[1], atom.a[2]):
+                continue
+            other = atom.a[2] if atom.a[1] == tag_t else atom.a[1]
+            if atom.a[0] in ("==", "!="):
                 if other.op == "const" and other.a[0] in by_bytes:
-                    hit = by_bytes[other.a[0]]
+                    if (atom.a[0] == "==") == eff:
+                        hit = by_bytes[other.a[0]]
+                    else:
+                        excluded.add(by_bytes[other.a[0]])
+            elif atom.a[0] in ("in", "not in") and atom.a[1] == tag_t and (atom.a[0] == "in") == eff:
+                items = other.a[0] if other.op in ("tuple", "list", "set") else other.a[0] if other.op == "const" and isinstance(other.a[0], (tuple, frozenset)) else None
+                if items is not None:
+                    vals = [(x.a[0] if isinstance(x, T) and x.op == "const" else x) for x in items]
+                    if all(v in by_bytes for v in vals):
+                        members = {by_bytes[v] for v in vals} if members is None else members & {by_bytes[v] for v in vals}
+        if hit is None and members is not None and len(members - excluded) == 1:
+            hit = next(iter(members - excluded))
         return hit
 
     # the two local accumulators are known by their role, not by their name: the list the log loop iterates over holds
@@ -350,12 +387,41 @@ def check(repo: Repo, run: Run) -> None:
     # local-variable branches (log_strings = {...}): visible in the widened variable handed to the log decoder
     ls_term = normal.accum_to_comp(rec, sym.resolve_widens(rec, log_dec[0].args[1])) if log_dec and len(log_dec[0].args) > 1 else None
     if ls_term is not None:
+        def _leaves(t, pc):
+            if t.op == "ite":
+                yield from _leaves(t.a[1], pc + ((t.a[0], True),))
+                yield from _leaves(t.a[2], pc + ((t.a[0], False),))
+            else:
+                yield t, pc
         for x in sym.walk(ls_term):
             if x.op == "ite":
-                tg = branch_tag(((x.a[0], True),))
-                if tg and x.a[1].op == "comp":
-                    landed.setdefault(tg, []).append({"kind": "assign", "key": None, "target": "log_strings", "aug": None,
-                                                      "value": x.a[1], "pc": (), "line": dl.lineno})
+                for leaf, pc_ in _leaves(x, ()):
+                    tg = branch_tag(pc_)
+                    if tg and leaf.op == "comp" and not any(l["value"] == leaf for l in landed.get(tg, [])):
+                        landed.setdefault(tg, []).append({"kind": "assign", "key": None, "target": "log_strings", "aug": None,
+                                                          "value": leaf, "pc": (), "line": dl.lineno})
+    # R11: a payload is decoded only under a test of its tag - a block of a tag the parser does not know (a section added by a
+    # newer kernel, zero padding framed as a block) must be passed over unread, or its bytes abort the listing before the logs
+    decoders_ = [c for c in rec.calls if dl.id in c.loops and (
+        (c.func == T("global", ("plistlib.loads",)) and c.args and sym.contains(c.args[0], data_t))
+        or (c.func.op == "attr" and c.func.a[1] == "decode" and sym.contains(c.func.a[0], data_t)))]
+
+    def _tag_tested(pc) -> bool:
+        for c_, pol_ in guards._atoms(pc):
+            atom, apol = render.norm_bool(c_)
+            eff = pol_ if apol else not pol_
+            if atom.op == "cmp" and sym.contains(atom, tag_t):
+                if (atom.a[0] in ("==", "in") and eff) or (atom.a[0] in ("!=", "not in") and not eff):
+                    return True
+        return False
+    loose = [c for c in decoders_ if not _tag_tested(c.pc)]
+    run.ob("R11", MOD, "KdBufParser.parse_v3", "a block's payload is decoded only under a test of its tag", not loose,
+           "" if not loose else
+           f"parse_v3 decodes the payload of a block ({sym.pretty(loose[0].func)[:40]}, line {loose[0].lineno}) without having tested "
+           f"its tag: a block of a tag the parser does not know (a section of a newer format, zero padding at the end of the file) "
+           f"raises there, and no log record is yielded", line=loose[0].lineno if loose else dl.lineno,
+           witness="a block with tag 0x8002 and a payload that is not a property list, in front of the log blocks")
+    run.floor("R11", "payload decoders in the dispatch loop", len(decoders_), 2)
     if not landed:
         raise AnalysisError("parse_v3: no store of an additional-data block under a `block.tag == TRACEV3_...` test was recognised "
                             "(dispatch through a table of methods, a helper object, ...): the section mapping is not decided")
